@@ -309,19 +309,22 @@ theorem gdDispatch_spec {α : Type} (plain dict : Except Err α) :
 /-! ### the `search_safe` guard, on the edit states of `Ccp.Edit` -/
 
 /-- **Stale config**: on a state whose checkpoint moved since the last commit (`S.stale`), `re_match`,
-`re_match_typed`, `re_match_iter_typed` and `re_list_iter_typed` of a committed object all raise
-`NotImplementedError`; on a non-stale state they answer from the tree of the last commit. -/
+`re_match_typed`, `re_match_iter_typed` and `re_list_iter_typed` of a committed object and the config-level
+`CiscoConfParse.re_match_iter_typed` all raise `NotImplementedError`; on a non-stale state they answer from the tree
+of the last commit (the config-level method: from the current list, `root_on_committed`). -/
 theorem stale_raises (s : Edit.S) (g : Str → GroupRes) (ip : Arg → Except Err Str)
     (h : Nat) (ty : Ty) (d : Arg) (u r : Bool) :
     (s.stale = true →
       stMatch s g ip h d = .error .notImplemented ∧ stMatchTyped s g ip h ty d u = .error .notImplemented ∧
-      stIterTyped s g ip h ty d u r = .error .notImplemented ∧ stListTyped s g ip h ty r = .error .notImplemented) ∧
+      stIterTyped s g ip h ty d u r = .error .notImplemented ∧ stListTyped s g ip h ty r = .error .notImplemented ∧
+      stRootIterTyped s g ip ty d u = .error .notImplemented) ∧
     (s.stale = false →
       stMatch s g ip h d = reMatch (onState s g ip) h d ∧
       stMatchTyped s g ip h ty d u = reMatchTyped (onState s g ip) h ty d u ∧
       stIterTyped s g ip h ty d u r = reMatchIterTyped (onState s g ip) h ty d u r ∧
-      stListTyped s g ip h ty r = reListIterTyped (onState s g ip) h ty r) := by
-  constructor <;> intro hs <;> simp [stMatch, stMatchTyped, stIterTyped, stListTyped, guarded, hs]
+      stListTyped s g ip h ty r = reListIterTyped (onState s g ip) h ty r ∧
+      stRootIterTyped s g ip ty d u = rootOnItems s g ip ty d u) := by
+  constructor <;> intro hs <;> simp [stMatch, stMatchTyped, stIterTyped, stListTyped, stRootIterTyped, guarded, hs]
 
 /-- which states are stale (from `Ccp.Edit`): a fresh parse is not; `ConfigList.insert` makes the
 state stale iff `auto_commit` is off; `commit` clears it; the guard of the typed helpers is the
@@ -336,21 +339,28 @@ theorem stale_states (cfg : Cfg) (auto : Bool) (w : Nat) (ls : List Str) (s : Ed
   · cases hs : s.stale <;> simp [Edit.step, hs]
 
 /-- `CiscoConfParse.re_match_iter_typed` on a committed state (the current list is the list of the
-last commit) is the config-level extraction of `root_iter_spec` on the committed tree. -/
+last commit, no checkpoint moved) is the config-level extraction of `root_iter_spec` on the committed tree; whenever
+the current list is the list of the last commit, the body below the guard is that extraction. -/
 theorem root_on_committed (s : Edit.S) (g : Str → GroupRes) (ip : Arg → Except Err Str) (ty : Ty) (d : Arg) (u : Bool)
     (h : s.items = Edit.committedItems s.tree) :
-    stRootIterTyped s g ip ty d u = rootIterTyped (onState s g ip) ty d u := by
-  unfold stRootIterTyped rootIterTyped
-  rw [h, Edit.committedItems, rootLoopItems_committed g ip s.tree ty s.tree.texts 0 (by simp)]
-  simp [onState, T.size, List.range_eq_range']
+    rootOnItems s g ip ty d u = rootIterTyped (onState s g ip) ty d u ∧
+    (s.stale = false → stRootIterTyped s g ip ty d u = rootIterTyped (onState s g ip) ty d u) := by
+  have hb : rootOnItems s g ip ty d u = rootIterTyped (onState s g ip) ty d u := by
+    unfold rootOnItems rootIterTyped
+    rw [h, Edit.committedItems, rootLoopItems_committed g ip s.tree ty s.tree.texts 0 (by simp)]
+    simp [onState, T.size, List.range_eq_range']
+  exact ⟨hb, fun hs => by simp [stRootIterTyped, guarded, hs, hb]⟩
 
-/-- **Missing guard** (`_partial`: what the code does, not what the other search APIs do):
-`CiscoConfParse.re_match_iter_typed` has no `search_safe` test — its answer does not depend on
-`S.stale`; on a stale state it reads the current list, uncommitted lines included (each is its own
-parent, hence a "root"), see the example below. -/
-theorem root_unguarded_partial (s : Edit.S) (g : Str → GroupRes) (ip : Arg → Except Err Str) (ty : Ty) (d : Arg)
-    (u b : Bool) :
-    stRootIterTyped { s with stale := b } g ip ty d u = stRootIterTyped s g ip ty d u := rfl
+/-- **The config-level method is guarded like every other search**: `CiscoConfParse.re_match_iter_typed` raises
+`NotImplementedError` on every stale state, whatever the list holds (it never reads an uncommitted line), and on a
+non-stale state it is the loop over the current list.
+(Before the repair `fix: CiscoConfParse.re_match_iter_typed() refuses to search an uncommitted config` this was
+`root_unguarded_partial`: the answer did not depend on `S.stale`, and on a stale state the method read the current
+list, uncommitted lines included -- finding FC07a.) -/
+theorem root_guarded (s : Edit.S) (g : Str → GroupRes) (ip : Arg → Except Err Str) (ty : Ty) (d : Arg) (u : Bool) :
+    (s.stale = true → stRootIterTyped s g ip ty d u = .error .notImplemented) ∧
+    (s.stale = false → stRootIterTyped s g ip ty d u = rootOnItems s g ip ty d u) := by
+  constructor <;> intro hs <;> simp [stRootIterTyped, guarded, hs]
 
 /-! ### non-vacuity: a concrete config, parsed by the tree model -/
 
@@ -416,8 +426,15 @@ def exS : Edit.S := (Edit.step (Edit.init exCfg false 1 exLines) (.insert 1 " mt
 example : exS.stale = true := by decide +kernel
 example : stIterTyped exS exG (fun _ => .error (.ext [])) 0 .int (.int (-1)) false true = .error .notImplemented := by
   decide +kernel
--- the unguarded config-level method answers from the uncommitted (indented) line
-example : stRootIterTyped exS exG (fun _ => .error (.ext [])) .int (.int (-1)) false = .ok (.int 7) := by decide +kernel
+-- the config-level method refuses as well (before the repair of FC07a it answered 7, from the uncommitted indented line)
+example : stRootIterTyped exS exG (fun _ => .error (.ext [])) .int (.int (-1)) false = .error .notImplemented := by
+  decide +kernel
+example : rootOnItems exS exG (fun _ => .error (.ext [])) .int (.int (-1)) false = .ok (.int 7) := by decide +kernel
+-- hypothesis of `root_on_committed`: after the commit the current list is the committed one, and the method answers
+example : (Edit.step exS .commit).1.items = Edit.committedItems (Edit.step exS .commit).1.tree ∧
+    (Edit.step exS .commit).1.stale = false ∧
+    stRootIterTyped (Edit.step exS .commit).1 exG (fun _ => .error (.ext [])) .int (.int (-1)) false = .ok (.int 7) := by
+  decide +kernel
 -- after a commit the state is searchable again and the inserted line is a child of line 0
 example : stIterTyped (Edit.step exS .commit).1 exG (fun _ => .error (.ext [])) 0 .int (.int (-1)) false false
     = .ok (.int 7) := by decide +kernel
